@@ -436,6 +436,16 @@ def own_telegram_marker(chk: Check, repo: Repo) -> None:
     retarget = [n for n in own_nodes if any(call_name(c) in ("self._start_position_update", "self.travelcalculator.start_travel", "self._process_updown_from_bus") for c in calls(n.ast))]
     # ... and nothing after the branch retargets either: every _start_position_update in the function is under the negation
     later = [n for n in cfg.nodes if n.kind == "stmt" and n.ast is not None and any(call_name(c) in ("self._start_position_update", "self.travelcalculator.start_travel") for c in calls(n.ast)) and not any(a == "self._auto_stop_requested" and v is False for a, v in mf[n.id]) and any(call_name(c2) == "self.updown.process" for n2 in cfg.nodes if n2.ast is not None and cfg.dominates(n2.id, n.id) for c2 in (calls(n2.ast) if n2.kind in ("stmt", "test") else []))]
+    # a command from the bus runs the drive to the end position whatever it was doing - the calculator follows it on every
+    # path (a guard like "not already opening" leaves a positioned move, whose auto stopper was just cancelled, on its old
+    # target while the drive runs on)
+    bus = repo.func(cm, "Cover._process_updown_from_bus") if repo.has_func(cm, "Cover._process_updown_from_bus") else pg
+    chk.unit(bus)
+    bc = CFG(bus.node)
+    bmf = bc.must_facts()
+    retargets = [n for n in bc.nodes if n.kind == "stmt" and n.ast is not None and any(call_name(c) == "self._start_position_update" for c in calls(n.ast))]
+    state_guards = sorted({a for n in retargets for a, v in bmf[n.id] if "is_opening" in a or "is_closing" in a or "is_traveling" in a})
+    chk.ob("bus-command-retargets-unconditionally", bus.site(), len(retargets) >= 2 and not state_guards, f"{bus.qualname}: {len(retargets)} retargets to an end position" + (" decided by the direction of the command alone" if not state_guards else f", guarded by the current movement {state_guards}: a positioned move in the commanded direction keeps its old target although its auto stopper was cancelled"), key="cover|bus-retarget")
     chk.ob("own-telegram-does-not-retarget", pg.site(), bool(own_nodes) and not retarget and not later, f"process_group_write, own up/down telegram: {len(own_nodes)} statements under the marker, " + ("none starts a new travel" if not retarget and not later else "the travel calculator is sent to the end position although set_position() targeted the requested one"), key="cover|own-no-retarget")
 
 
